@@ -145,7 +145,15 @@ pub enum VT {
     RefNN(u32),
     /// (ref func) — non-null abstract, block results only
     FuncNN,
+    /// any abstract heap type (index into ABS_HEAPS) with either nullability: decorative
+    /// positions only (an unused function type's parameters / results, unused nullable locals)
+    Abs(u8, bool),
 }
+
+pub const ABS_HEAPS: [we::AbstractHeapType; 12] = {
+    use we::AbstractHeapType as A;
+    [A::Func, A::Extern, A::Any, A::None, A::NoExtern, A::NoFunc, A::Eq, A::Struct, A::Array, A::I31, A::Exn, A::NoExn]
+};
 
 impl VT {
     pub fn val(self) -> ValType {
@@ -169,6 +177,7 @@ impl VT {
             VT::RefNull(t) => ValType::Ref(RefType { nullable: true, heap_type: HeapType::Concrete(t) }),
             VT::RefNN(t) => ValType::Ref(RefType { nullable: false, heap_type: HeapType::Concrete(t) }),
             VT::FuncNN => abs(A::Func, false),
+            VT::Abs(k, nullable) => abs(ABS_HEAPS[k as usize % 12], nullable),
         }
     }
     pub fn heap(self) -> Option<HeapType> {
@@ -178,7 +187,7 @@ impl VT {
         }
     }
     pub fn defaultable(self) -> bool {
-        !matches!(self, VT::RefNN(_) | VT::FuncNN)
+        !matches!(self, VT::RefNN(_) | VT::FuncNN | VT::Abs(_, false))
     }
     pub fn is_num(self) -> bool {
         matches!(self, VT::I32 | VT::I64 | VT::F32 | VT::F64)
@@ -1287,6 +1296,39 @@ pub fn gen_module(t: &mut Tape, cfg: &GenCfg) -> GModule {
                 data = vec![1, 8, b'l', b'a', b'n', b'g', b'u', b'a', b'g', b'e', 1, 1, b'C', 1, b'1'];
             }
             m.customs.push(GCustom { slot: t.below(14) as u8, name, data });
+        }
+    }
+    // ---------- decorative reference types ----------
+    // Every abstract heap type in both nullabilities, where no value of the type is ever needed:
+    // one unused function type appended behind all others and one unused nullable local at the
+    // end of some functions.  Chosen by a hash of what was generated so far, not by tape reads;
+    // appended last, so no index and no earlier decision moves.
+    if p.gc && !exec {
+        let mut h = crate::tape::fnv(format!("{:?}{:?}", m.types.len(), m.funcs.iter().map(|f| (f.ty, f.locals.len(), f.body.len())).collect::<Vec<_>>()).as_bytes());
+        let mut next = |n: u64| {
+            h = h.wrapping_mul(0x9E37_79B9_7F4A_7C15).rotate_left(17) ^ 0x5bd1_e995;
+            (h >> 11) % n
+        };
+        let mut pick = |next: &mut dyn FnMut(u64) -> u64, want_nullable: bool| loop {
+            let k = next(12) as u8;
+            // exn / noexn only with the exception profile (and not where exnref is steered away)
+            if k >= 10 && (!p.exn || cfg.avoid_exnref) {
+                continue;
+            }
+            break VT::Abs(k, want_nullable || next(2) == 0);
+        };
+        if next(3) != 0 {
+            let np = 1 + next(3) as usize;
+            let params: Vec<VT> = (0..np).map(|_| pick(&mut next, false)).collect();
+            let results: Vec<VT> = (0..next(2) as usize).map(|_| pick(&mut next, false)).collect();
+            m.types.push(GType::func(params, results));
+            m.groups.push(GRecGroup { explicit: false, len: 1 });
+            feats.insert("gc");
+        }
+        for f in m.funcs.iter_mut() {
+            if next(3) == 0 {
+                f.locals.push(pick(&mut next, true));
+            }
         }
     }
     m.features_used = feats.into_iter().collect();
